@@ -204,6 +204,12 @@ func genDoc(r *gen.Rand, i int, branches []string, maxTokens int) doc {
 	default:
 		d.Content = bytes.ReplaceAll(gen.Text(r, maxTokens, r.Chance(1, 5)), []byte{0}, []byte{' '})
 	}
+	if r.Chance(1, 6) {
+		// long, few distinct trigrams: never "too many trigrams", whatever the Builder's reused DocChecker saw before
+		unit := gen.Pick(r, []string{"ab", "xyz ", "foo\n", "é", "=-"})
+		d.Content = []byte(strings.Repeat(unit, 10+r.Intn(40)))
+		d.Skip = index.SkipReasonNone
+	}
 	for _, b := range branches {
 		if r.Chance(2, 3) {
 			d.Branches = append(d.Branches, b)
@@ -945,7 +951,7 @@ func (h *harness) e2eCases(r *gen.Rand, n int, large bool) {
 			for k, d := range rp.Docs {
 				d.Name = fmt.Sprintf("%d-%s", k+1, d.Name)
 				if k%2 == 0 && d.Skip == index.SkipReasonNone && bytes.IndexByte(d.Content, 0) < 0 {
-					d.Content = append(append(append([]byte(nil), d.Content...), []byte("\n// "+strings.Repeat(unit, 3+r.Intn(5))+" needle"+fmt.Sprint(k)+"\n")...))
+					d.Content = append(append([]byte(nil), d.Content...), []byte("\n// "+strings.Repeat(unit, 3+r.Intn(5))+" needle"+fmt.Sprint(k)+"\n")...)
 					d.Symbols = nil
 				}
 				docs = append(docs, d)
